@@ -241,6 +241,14 @@ var f3Shapes = []struct {
 	{"locInner", "LInner", false},
 	{"locAnon", "LAnon", false},
 	{"extInner3", "ext.Inner3", true},
+	// members whose element types live in a package the setup file does not import (channels, funcs, maps of them)
+	{"extTm", "ext.Tm", true},
+	{"extTm2", "ext.Tm2", true},
+	// anonymous structs nested two levels deep inside an imported type / the same shape declared locally
+	{"extAnon2", "ext.Anon2", true},
+	{"locAnon2", "LAnon2", false},
+	// getters of the members: value receiver Name(), POINTER receiver PName() (ext.G) against plain fields
+	{"gdst", "GD", false},
 }
 
 const f3Prelude = scen.TypePrelude + `
@@ -266,6 +274,25 @@ type LAnon struct {
 		X int
 		x int
 	}
+}
+
+// LAnon2 mirrors ext.Anon2 locally.
+type LAnon2 struct {
+	Spec struct {
+		Net struct {
+			Port int
+			port int
+		}
+		rev int
+		Rev int
+	}
+}
+
+// GD takes what ext.G offers through getters.
+type GD struct {
+	Name  string
+	PName string
+	Age   int
 }
 `
 
@@ -348,6 +375,9 @@ const f4Decls = `type N struct {
 	B string
 }
 
+// PA has a POINTER receiver: callable on src.N (addressable), not on the result of the by-value getter GN().
+func (n *N) PA() int { return n.A }
+
 type N3 struct {
 	A int
 	B string
@@ -390,11 +420,18 @@ func P2I(p *int) int          { return *p + 2 }
 func I2IE(i int) (int, error) { return i + 3, nil }
 func I2S(i int) string        { return "s" }
 func N2N(n N) N               { return n }
+func PT2I(p PT) int           { return p.A + 4 }
+func Any2I(v interface{}) int {
+	if _, isPtr := v.(*PT); isPtr {
+		return 5
+	}
+	return 6
+}
 `
 
 var f4Dst = []string{"X", "Y", "N.A", "M.A", "Q.A", "N", "Zz", "x"}
-var f4Src = []string{"A", "N.A", "G()", "GN().A", "P.A", "E", "Emb.E", "GE()", "B", "g", "Zz", "$1.A", "$2", "$3.A", "$1.G()", "$0", "$9", "$2.A", "V()", "GP().A", "a", "N", "$1.N", "GEN().A"}
-var f4Conv = []string{"I2I", "P2I", "I2IE", "I2S", "N2N", "ext.Itoa", "Other", "Missing"}
+var f4Src = []string{"A", "N.A", "G()", "GN().A", "P.A", "E", "Emb.E", "GE()", "B", "g", "Zz", "$1.A", "$2", "$3.A", "$1.G()", "$0", "$9", "$2.A", "V()", "GP().A", "a", "N", "$1.N", "GEN().A", "P", "GN().PA()", "N.PA()"}
+var f4Conv = []string{"I2I", "P2I", "I2IE", "I2S", "N2N", "ext.Itoa", "Other", "Missing", "PT2I", "Any2I"}
 
 type f4Meta struct {
 	Kind    string
@@ -513,7 +550,7 @@ func familyF4(thorough bool) []*scen.Cell {
 		}
 	}
 	// ---- :skip dims: pattern, case, style, competing
-	pats := []string{"X", "x", "/^X$/", "/x/", "N.A", `/^N\./`, "/A$/", "N", "M.A", "M", "Q", "/./", "Zz", "/[/", `/\bA\b/`, "/^(X|Y)$/", `/\W/`, `/^\pL$/`}
+	pats := []string{"X", "x", "/^X$/", "/x/", "N.A", `/^N\./`, "/A$/", "N", "M.A", "M", "Q", "/./", "Zz", "/[/", `/\bA\b/`, "/^(X|Y)$/", `/\W/`, `/^\pL$/`, "n", "/^n$/", "/^X|N$/"}
 	comp := [][]string{nil, {":map A X"}, {":conv I2I A X"}, {":literal X 7"}, {":map A N.A"}, {":map A M.A"}}
 	scen.Odometer([]int{len(pats), 2, 2, len(comp)}, func(d []int) {
 		notes := append([]string{":skip " + pats[d[0]]}, comp[d[3]]...)
@@ -549,7 +586,7 @@ func familyF4(thorough bool) []*scen.Cell {
 		}
 	}
 	// ---- :literal dims: dst, text, case, competing
-	texts := []string{"7", `"s"`, "I2I(3)", "ext.Itoa(1)", "src.A", "N{A: 1}", "nil", "1 + 2", `"%d of %d%%"`, "7 % 4"}
+	texts := []string{"7", `"s"`, "I2I(3)", "ext.Itoa(1)", "src.A", "N{A: 1}", "nil", "1 + 2", `"%d of %d%%"`, "7 % 4", `"$9.99 ${name} $1 $$"`}
 	// several :literal lines on one method, each with its own destination
 	for i, ns := range [][]string{
 		{":literal X 7", `:literal Y "pet"`},
@@ -573,6 +610,34 @@ func familyF4(thorough bool) []*scen.Cell {
 			sig := map[int]string{0: "Conv(*S) *D", 1: "Conv(*S) (*D, error)"}[err]
 			setup := scen.SetupFile(true, decl, nil, []scen.MethodDecl{{Notations: ns, Sig: sig}})
 			add(&scen.Cell{ID: fmt.Sprintf("f4pconv_%d_%d", i, err), Family: "F4-conv", Files: map[string]string{"setup.go": setup}, Meta: f4Meta{Kind: "conv", Line: strings.Join(ns, " ; "), Err: err}})
+		}
+	}
+	// explicit notations whose value needs an opted-in conversion: around an error-returning converter / getter (nowhere to
+	// put the error), and towards a type that has no renderable conversion ([]byte)
+	for i, ns := range [][]string{
+		{":typecast", ":conv I2IE A X64"},
+		{":typecast", ":map GE() X64"},
+		{":stringer", ":conv I2StE A Y"},
+		{":stringer", ":map GSt() Y"},
+		{":typecast", ":map B Raw"},
+		{":typecast", ":conv I2S A Raw"},
+		{":typecast", ":map $2 Raw"},
+		{":typecast", ":map A X64"},
+		{":stringer", ":map St Y"},
+	} {
+		for err := 0; err < 2; err++ {
+			for style := 0; style < 2; style++ {
+				decl := strings.Replace(f4Decls, "func I2I(i int) int", "type Status int\n\nfunc (s Status) String() string { return \"st\" }\n\nfunc I2StE(i int) (Status, error) { return Status(i), nil }\n\nfunc (s *S) GSt() (Status, error) { return s.St, nil }\n\nfunc I2I(i int) int", 1)
+				decl = strings.Replace(decl, "\tg int\n}", "\tg int\n\tSt Status\n}", 1)
+				decl = strings.Replace(decl, "\tQ N\n}", "\tQ N\n\tX64 int64\n\tRaw []byte\n}", 1)
+				sig := map[int]string{0: "Conv(*S, string) *D", 1: "Conv(*S, string) (*D, error)"}[err]
+				notes := ns
+				if style == 1 {
+					notes = append([]string{":style arg"}, ns...)
+				}
+				setup := scen.SetupFile(true, decl, nil, []scen.MethodDecl{{Notations: notes, Sig: sig}})
+				add(&scen.Cell{ID: fmt.Sprintf("f4cast_%d_%d_%d", i, err, style), Family: "F4-conv", Files: map[string]string{"setup.go": setup}, Meta: f4Meta{Kind: strings.Fields(ns[1])[0][1:], Line: strings.Join(ns, " ; "), Err: err, Style: style, Args: 1}})
+			}
 		}
 	}
 	scen.Odometer([]int{len(f4Dst), len(texts), 2, 2}, func(d []int) {
